@@ -77,7 +77,9 @@ def _arm_constants(b, field_name):
 class _Factors:
     """multiplicative factorisation of a float expression: constant product, number of length factors"""
 
-    def __init__(self, b, length_locals, length_upvars=()):
+    def __init__(self, b, length_locals, length_upvars=(), F=None, vidx=None):
+        self.F = F
+        self.vidx = vidx
         self.b = b
         self.defs = Defs(b)
         self.len_locals = length_locals
@@ -115,9 +117,18 @@ class _Factors:
         if d[0] == "call":
             t = d[2]
             name = callee(t)[2]
+            cb = self.F.callee_body(t) if self.F is not None else None
+            if cb is not None and "geometry::Geometry::" in cb.path and (cb.lty(0) or {}).get("s") == "f64" and self.vidx is not None:
+                # a per-geometry constant provided by a method of Geometry (`geometry.unit_volume()`), for the geometry this
+                # constructor stores
+                arms = _arm_constants(cb, None).get(self.vidx, {})
+                fl = [x for x in arms.values() if isinstance(x, float)]
+                if fl:
+                    self.const = self.const * fl[-1] if sign > 0 else self.const / fl[-1]
+                    return
             if name == "powi" and len(t["args"]) == 2 and t["args"][1].get("i") is not None:
                 n = int(t["args"][1]["i"])
-                sub = _Factors(self.b, self.len_locals, self.len_upvars)
+                sub = _Factors(self.b, self.len_locals, self.len_upvars, self.F, self.vidx)
                 sub.defs = self.defs
                 sub.visit(t["args"][0], 1, depth + 1)
                 self.const *= sub.const ** (n * sign)
@@ -190,9 +201,17 @@ def _weights_of(F, b):
         wop = rv["ops"][fields.index("integration_weights")]
         vidx = None
         if gop.get("k") in ("copy", "move"):
-            for d in defs.of(gop["place"]["l"]):
-                if d[0] == "stmt" and d[4]["k"] == "agg" and "vidx" in d[4]["kind"]:
-                    vidx = d[4]["kind"]["vidx"]
+            work, seen_ = [gop["place"]["l"]], set()
+            while work:
+                x = work.pop()
+                if x in seen_:
+                    continue
+                seen_.add(x)
+                for d in defs.of(x):
+                    if d[0] == "stmt" and d[4]["k"] == "agg" and "vidx" in d[4]["kind"]:
+                        vidx = d[4]["kind"]["vidx"]
+                    elif d[0] == "stmt" and d[4]["k"] == "use" and d[4]["op"].get("k") in ("copy", "move"):
+                        work.append(d[4]["op"]["place"]["l"])
         elif gop.get("k") == "const":
             vidx = gop.get("vidx")
         lens = _length_locals(b)
@@ -212,14 +231,14 @@ def _weights_of(F, b):
             t = d[2]
             name = callee(t)[2]
             if name == "from_elem" and len(t["args"]) == 2:
-                f = _Factors(b, lens)
+                f = _Factors(b, lens, (), F, vidx)
                 f.visit(t["args"][1])
                 return vidx, f
             if name in ("from_shape_fn", "map") and len(t["args"]) == 2:
                 cb = F.body(boolsum.closure_def_of_type(b.opty(t["args"][1])) or "")
                 if cb is None:
                     return vidx, None
-                f = _Factors(cb, set(), len_names)
+                f = _Factors(cb, set(), len_names, F, vidx)
                 f.visit({"k": "copy", "place": {"l": 0, "p": []}})
                 return vidx, f
             if name in ("collect", "from_iter", "from_vec", "from", "into") and t["args"] and t["args"][0].get("k") in ("copy", "move"):
@@ -237,7 +256,14 @@ def run(F):
         r.fail("missing|Axis::volume", "-", "Axis::volume or Geometry::dimension not found")
         return [r]
     pre = {}
-    for v, env in _arm_constants(vb, "geometry").items():
+    arms = _arm_constants(vb, "geometry")
+    if not arms:
+        # the per-geometry constant may be provided by a method of Geometry that volume() calls on `self.geometry`
+        for bi, t in vb.calls():
+            cb = F.callee_body(t)
+            if cb is not None and "geometry::Geometry::" in cb.path and (cb.lty(0) or {}).get("s") == "f64":
+                arms = _arm_constants(cb, None)
+    for v, env in arms.items():
         fl = [x for x in env.values() if isinstance(x, float)]
         pre[v] = fl[-1] if fl else None
     dim = {}
